@@ -111,3 +111,13 @@ Definition is_request (o : op) : bool := match o with PUB _ _ => false | _ => tr
    a writer, no channel data file is open, nothing is stored any more, and the reported state says so (not active) ---------- *)
 Definition fault_stop_ok (f : faultobs) : bool :=
   forallb no_writer (fo_writers f) && (fo_open f =? 0) && negb (fo_stored f) && negb (fo_active f).
+
+(* second stage: after the START that follows, reported state and behaviour agree (reply class not judged) *)
+Definition pub1_ok (r : rstate) (pp : bool * (Z * Z * Z)) : bool :=
+  let p := fst pp in let d := snd pp in
+  (fst (fst d) =? (if expect_store r p LJH22 then 1 else 0)) &&
+  (snd (fst d) =? (if expect_store r p LJH3 then 1 else 0)) &&
+  (snd d =? (if expect_store r p OFF then 1 else 0)).
+Definition fault_start_ok (proj : list bool) (o : rstate * list (Z * Z * Z) * bool) : bool :=
+  let r := fst (fst o) in let pubs := snd (fst o) in
+  negb (snd o) && (zlen pubs =? zlen proj) && forallb (pub1_ok r) (combine proj pubs).
